@@ -321,10 +321,86 @@ for registry in (False, True):
 if vok == 0 or vbad == 0:
     ck.inconclusive.append(f'vacuous: verify_chain accepted on {vok} paths, rejected on {vbad}')
 
+# ------------------------------------------------------------------ B3 the Merkle root binds the transaction list
+NL = 4 if T == 'quick' else 6
+SHA = z3.Function('sha256_of_64_bytes', z3.BitVecSort(512), z3.BitVecSort(256))
+
+
+def bv256(seq, st):
+    return z3.Concat([x.v for x in seq.items(st)])
+
+
+def m_sha_new(c):
+    return Struct('Sha256', {'absorbed': Seq('u8', [])})
+
+
+def m_sha_update(c):
+    h = deref(c.st, c.args[0])
+    data = deref(c.st, c.args[1])
+    h.fields['absorbed'] = Seq('u8', list(h.fields['absorbed'].items(c.st)) + list(data.items(c.st)))
+    return UNIT
+
+
+def m_sha_finalize(c):
+    h = deref(c.st, c.args[0])
+    bs = list(h.fields['absorbed'].items(c.st))
+    if len(bs) != 64:
+        raise Unsupported(f'sha256 of {len(bs)} bytes (only the 64-byte node hash is modelled)')
+    x = z3.Concat([b.v for b in bs])
+    apps = c.st.env.setdefault('sha_apps', [])
+    for y in apps:      # collision-free on the applications of this run
+        c.st.assume(z3.Implies(SHA(x) == SHA(y), x == y))
+    apps.append(x)
+    out = SHA(x)
+    return Seq('u8', [Int(z3.Extract(255 - 8 * i, 248 - 8 * i, out), False) for i in range(32)])
+
+
+ex.extra_models.update({
+    '<CoreWrapper as Digest>::new': m_sha_new, '<CoreWrapper as Digest>::update': m_sha_update, '<CoreWrapper as Digest>::finalize': m_sha_finalize,
+    '<GenericArray as Into<[u8; 32]>>::into': lambda c: c.args[0], '<GenericArray as Into>::into': lambda c: c.args[0],
+})
+ck.declare('B3_tx_root_binds_the_transaction_list', f'merkle_root on two lists of 1..{NL} leaf digests (each 256 symbolic bits)',
+           'equal roots => the two lists are the same list (same length, same leaves in the same order): otherwise a stored block whose transaction list was altered still matches '
+           'the signed tx_root and passes verify_chain')
+ck.assumptions += ['B3: SHA-256 on 64-byte node inputs is an uninterpreted function that is collision-free on the applications of one run; a leaf digest is never the digest of a '
+                   '64-byte node input and never all-zero (second-preimage resistance); Transaction::hash itself is not executed (leaves are arbitrary digests)']
+mroots = 0
+for n1 in range(1, NL + 1):
+    for n2 in range(n1, NL + 1):
+        st = ex.new_state()
+        L1 = [z3.BitVec(f'la{i}', 256) for i in range(n1)]
+        L2 = [z3.BitVec(f'lb{i}', 256) for i in range(n2)]
+        mk = lambda L: Seq('[u8; 32]', [Seq('u8', [Int(z3.Extract(255 - 8 * i, 248 - 8 * i, v), False) for i in range(32)]) for v in L])
+        r1 = [r for r in run(st, 'merkle_root', [ref(mk(L1))])]
+        ck.note_path_problem(r1, f'merkle_root n={n1}')
+        for a in r1:
+            if a.status != 'return':
+                continue
+            root1 = bv256(a.retval, a.st)
+            r2 = run(a.st, 'merkle_root', [ref(mk(L2))])
+            ck.note_path_problem(r2, f'merkle_root n={n2}')
+            for b in r2:
+                if b.status != 'return':
+                    continue
+                mroots += 1
+                root2 = bv256(b.retval, b.st)
+                f = b.st
+                pre = [z3.Implies(SHA(x) == SHA(y), x == y) for x, y in itertools.combinations(f.env.get('sha_apps', []), 2)]
+                pre += [lf != SHA(x) for lf in L1 + L2 for x in f.env.get('sha_apps', [])]
+                same = z3.And([z3.BoolVal(n1 == n2)] + [x == y for x, y in zip(L1, L2)])
+                def wit(m, n1=n1, n2=n2, L1=L1, L2=L2):
+                    vals = {}
+                    idx = lambda v: vals.setdefault(mval(m, v), len(vals))
+                    return {'chain_op': 'merkle', 'list1': [idx(v) for v in L1], 'list2': [idx(v) for v in L2]}
+                ck.require(ex, 'B3_tx_root_binds_the_transaction_list', b.pc + pre, None, z3.Implies(root1 == root2, same), wit,
+                           lambda m, w: 'merkle-duplicated-tail' if len(w['list2']) > len(w['list1']) and w['list2'][:len(w['list1'])] == w['list1'] else 'merkle-collision')
+if mroots == 0:
+    ck.inconclusive.append('vacuous: merkle_root never returned')
+
 for v in ck.violations:
     rep = Replay.call({'op': 'chain_step', **v['witness']})
     v['native'] = rep
     v['replayed'] = rep.get('violates')
-ck.functions += ['Chain::append', 'Chain::verify_chain', 'Chain::get_block_at', 'Chain::store_block', 'Chain::save_height', 'Block::verify_chain', 'Block::verify_tx_root', 'chain::block_key']
+ck.functions += ['block::merkle_root', 'Chain::append', 'Chain::verify_chain', 'Chain::get_block_at', 'Chain::store_block', 'Chain::save_height', 'Block::verify_chain', 'Block::verify_tx_root', 'chain::block_key']
 if __name__ == '__main__':
     ck.finish()
